@@ -7,11 +7,11 @@ import (
 	"crypto/sha256"
 	"encoding/json"
 	"fmt"
+	"math/bits"
 	"math/rand"
 	"os"
 	"os/exec"
 	"path/filepath"
-	"runtime/debug"
 
 	"github.com/iotaledger/iota.go/trinary"
 	"github.com/wollac/iota-crypto-demo/pkg/curl"
@@ -26,7 +26,7 @@ func init() {
 		Rule: "bit-sliced states (2 x 729 words): uniform random words, all-zero, all-one, a single bit, a single word, every lane a valid trit state, lanes with the fourth code (0,0), lane-permuted copies (permuting lanes must commute with the permutation), states captured from real sponge use. Each state goes through the build-selected transform (assembly in the default build) on plain arrays, through the portable transform, through the build-selected transform with all four buffers inside guard-page arenas flush against the upper and then the lower guard (stray access = fault with the address as witness; canaries in the RW slack), and through a per-lane model: 81 rounds of the round function on 2-bit (l,h) codes with the 364/-365 walk, built from the boolean s-box formula and self-tested against the Curl-P truth table. All results must agree on all 2 x 729 words; digests of all results must be equal in the default and purego builds. " +
 			"Non-trivial: distinct states other than all-zero / all-one.",
 		Assumptions: []string{"the routine has no data-dependent branch or address (loop counters are immediates), so one fenced execution per placement observes every access it can make", "the fence sees accesses within 1 MiB of a buffer", "amd64 only", "per-lane model in harness/prop/c20 (self-tested against the Curl-P truth table and the single-lane model of oracle/curlp)"},
-		Builds:      []string{"default", "purego"},
+		Builds:      []string{"default", "purego", "386"},
 		SelfTest:    selfTest,
 		Gen:         gen,
 		Judge:       judge,
@@ -76,6 +76,8 @@ func asmTrace(r *fw.RunResult) {
 }
 
 var styles = []string{"random words", "all zero", "all one", "single bit", "single word", "valid trits in every lane", "some lanes with the (0,0) code", "captured from sponge use", "sparse random"}
+
+const lanes = bits.UintSize // 64 lanes on amd64, 32 in the 386 build
 
 type state struct{ l, h [curl.StateSize]uint }
 
@@ -137,7 +139,7 @@ func modelLane(st *[curl.StateSize]uint8) {
 func model(in *state) *state {
 	out := &state{}
 	var lane [curl.StateSize]uint8
-	for j := uint(0); j < 64; j++ {
+	for j := uint(0); j < lanes; j++ {
 		for i := range lane {
 			lane[i] = uint8(in.l[i]>>j&1) | uint8(in.h[i]>>j&1)<<1
 		}
@@ -196,16 +198,16 @@ func makeState(style byte, seed uint64) *state {
 		}
 	case 3:
 		if r.Intn(2) == 0 {
-			s.l[r.Intn(729)] = 1 << uint(r.Intn(64))
+			s.l[r.Intn(729)] = 1 << uint(r.Intn(lanes))
 		} else {
-			s.h[r.Intn(729)] = 1 << uint(r.Intn(64))
+			s.h[r.Intn(729)] = 1 << uint(r.Intn(lanes))
 		}
 	case 4:
 		i := r.Intn(729)
 		s.l[i], s.h[i] = uint(r.Uint64()), uint(r.Uint64())
 	case 5, 6:
 		for i := range s.l {
-			for j := uint(0); j < 64; j++ {
+			for j := uint(0); j < lanes; j++ {
 				c := codeOf(int8(r.Intn(3) - 1))
 				if style == 6 && j%5 == 0 && r.Intn(4) == 0 {
 					c = 0
@@ -216,7 +218,7 @@ func makeState(style byte, seed uint64) *state {
 		}
 	case 7:
 		c := curl.NewCurlP81()
-		n := 1 + r.Intn(64)
+		n := 1 + r.Intn(lanes)
 		src := make([]trinary.Trits, n)
 		for j := range src {
 			src[j] = make(trinary.Trits, 243)
@@ -235,62 +237,6 @@ func makeState(style byte, seed uint64) *state {
 		}
 	}
 	return s
-}
-
-var arenas []*arena
-
-func getArenas() []*arena {
-	if arenas == nil {
-		for _, n := range []string{"lto", "hto", "lfrom", "hfrom"} {
-			a, err := newArena(n)
-			if err != nil {
-				panic(err)
-			}
-			arenas = append(arenas, a)
-		}
-	}
-	return arenas
-}
-
-// fenced runs the build-selected transform with all four buffers in guard-page arenas.
-func fenced(o *fw.Obs, in *state, upper bool, seed byte) (*state, bool) {
-	as := getArenas()
-	var bufs [4]*[729]uint
-	offs := make([]int, 4)
-	for k, a := range as {
-		bufs[k], offs[k] = a.place(upper)
-		a.fillCanary(offs[k], seed+byte(k))
-		for i := range bufs[k] {
-			bufs[k][i] = 0xdeadbeefdeadbeef
-		}
-	}
-	*bufs[2], *bufs[3] = in.l, in.h
-	ok := true
-	func() {
-		old := debug.SetPanicOnFault(true)
-		defer debug.SetPanicOnFault(old)
-		defer func() {
-			if r := recover(); r != nil {
-				ok = false
-				where := fmt.Sprint(r)
-				if ae, is := r.(interface{ Addr() uintptr }); is {
-					where = locate(ae.Addr(), as, offs)
-				}
-				o.Fail("fence", "memory fault inside the permutation (buffers flush against the %s guard): %s; %v", placement(upper), where, r)
-			}
-		}()
-		curl.VerifTransform(bufs[0], bufs[1], bufs[2], bufs[3])
-	}()
-	if !ok {
-		return nil, false
-	}
-	for k, a := range as {
-		if err := a.checkCanary(offs[k], seed+byte(k)); err != nil {
-			o.Fail("canary", "stray write (buffers flush against the %s guard): %v", placement(upper), err)
-			return nil, false
-		}
-	}
-	return &state{l: *bufs[0], h: *bufs[1]}, true
 }
 
 func placement(upper bool) string {
@@ -317,7 +263,7 @@ func judge(class string, key []byte, o *fw.Obs) {
 		o.Nontrivial()
 	}
 	want := model(in)
-	o.Add("lanes modelled", 64)
+	o.Add("lanes modelled", lanes)
 	// guard-page fence, both placements (first, so that a stray access is reported as such)
 	for _, upper := range []bool{true, false} {
 		got, ok := fenced(o, in, upper, byte(seed))
@@ -351,18 +297,18 @@ func judge(class string, key []byte, o *fw.Obs) {
 	o.Count("three-way agreement")
 	// metamorphic: permuting lanes commutes with the permutation (rotation by k bits)
 	if seed%4 == 0 {
-		k := uint(1 + seed%63)
+		k := uint(1 + seed%(lanes-1))
 		var rot, rout state
 		for i := range in.l {
-			rot.l[i] = in.l[i]<<k | in.l[i]>>(64-k)
-			rot.h[i] = in.h[i]<<k | in.h[i]>>(64-k)
+			rot.l[i] = in.l[i]<<k | in.l[i]>>(lanes-k)
+			rot.h[i] = in.h[i]<<k | in.h[i]>>(lanes-k)
 		}
 		rl, rh := rot.l, rot.h
 		if !o.Try("transform (build-selected)", func() { curl.VerifTransform(&rout.l, &rout.h, &rl, &rh) }) {
 			return
 		}
 		for i := range want.l {
-			if rout.l[i] != want.l[i]<<k|want.l[i]>>(64-k) || rout.h[i] != want.h[i]<<k|want.h[i]>>(64-k) {
+			if rout.l[i] != want.l[i]<<k|want.l[i]>>(lanes-k) || rout.h[i] != want.h[i]<<k|want.h[i]>>(lanes-k) {
 				o.Fail("lanes", "rotating the lanes by %d does not commute with the permutation at word %d", k, i)
 				return
 			}
